@@ -14,7 +14,7 @@ LEVEL = "model_checking"
 TECHNIQUE = "(a) breadth-first explicit-state search over constructor / encode / decode / discard histories over pairs and triples of command classes with a differential oracle (same operation alone); (b) preemption-bounded exhaustive enumeration of thread schedules at source-line granularity under a sys.settrace + semaphore-baton scheduler owning real threads"
 RULE = ("(a) pool of 10 classes chosen to collide (6/10/12/16-byte CDBs, inherited layout, constructors that raise after touching shared state, "
         "mutable arguments); operations new(X, 2 argument variants), new-invalid(X), X.unmarshall_cdb, X.marshall_cdb, repeat-marshal with the same "
-        "caller objects, deep copy of a live command (then modified), display helpers (print_cdb / print / repr) of a command, a caller-owned segment dictionary re-used after the caller changed its kind (also after a refused construction), first-use in 13 fresh processes (see C02), same-thread re-entrancy: for every ordered pair of pool classes (and decoders) B runs to completion between two library lines of A, at every line of A in turn (signal handler / finalizer semantics), both observing what they observe alone; an opcode scan (a CDB marshalled for each of the 256 operation code values, 4 orders) with the pool classes observed before and after every 32 values; every pool class and decoder 300 (thorough 1100 / 66000) times in a row, each repetition observing what the first did; EXTENDED COPY segment kinds A, B, A in fresh processes (6 kinds x flag keys, both classes: bytes or refusal of A unchanged), the same battery of builds and decodes in 6 interpreters differing only in PYTHONHASHSEED, two commands over one caller-owned buffer with the first discarded and garbage-collected (WRITE, WRITE SAME, EXTENDED COPY inline data, ATA PASS-THROUGH 12/16 x all 256 ATA command codes x both directions), del; BFS with de-duplication on a digest of class-level state + live objects, all pairs to depth 4 (thorough 5) and all "
+        "caller objects, deep copy of a live command (then modified), display helpers (print_cdb / print / repr) of a command, a caller-owned segment dictionary re-used after the caller changed its kind (also after a refused construction), first-use in 13 fresh processes (see C02), data-in buffers kept by the caller after their command was dropped and collected (6 classes x 6 classes x sizes 96 .. 1 MiB): never handed to a later command; same-thread re-entrancy: for every ordered pair of pool classes (and decoders) B runs to completion between two library lines of A, at every line of A in turn (signal handler / finalizer semantics), both observing what they observe alone; an opcode scan (a CDB marshalled for each of the 256 operation code values, 4 orders) with the pool classes observed before and after every 32 values; every pool class and decoder 300 (thorough 1100 / 66000) times in a row, each repetition observing what the first did; EXTENDED COPY segment kinds A, B, A in fresh processes (6 kinds x flag keys, both classes: bytes or refusal of A unchanged), the same battery of builds and decodes in 6 interpreters differing only in PYTHONHASHSEED, two commands over one caller-owned buffer with the first discarded and garbage-collected (WRITE, WRITE SAME, EXTENDED COPY inline data, ATA PASS-THROUGH 12/16 x all 256 ATA command codes x both directions), del; BFS with de-duplication on a digest of class-level state + live objects, all pairs to depth 4 (thorough 5) and all "
         "triples to depth 3 (thorough 4); in every state every live object and every class's codec is compared with what the same call yields "
         "alone; decode histories A,B,A over every ordered pair of 20 response kinds in a fresh process (result for A identical before and after B). (b) 2 threads (thorough: also 3), each 'c=X(..); bytes(c.cdb); X.unmarshall_cdb; X.marshall_cdb; len(c.datain)', every ordered "
         "pair of pool classes, plus decoder threads (standard INQUIRY, VPD 83h, MODE SENSE(10), REPORT LUNS, RTPG, READ FULL STATUS, READ ELEMENT STATUS, sense) in all ordered pairs, all schedules with at most 1 preemption at every traced source line of the library (thorough: also all schedules with at most 2 preemptions at function-entry granularity for the pairs over 5 classes of different CDB lengths, and 2 preemptions at "
@@ -702,6 +702,55 @@ def run_segstar(ver, kind, extra_key):
     return out
 
 
+KEEP_SIZES = (96, 512, 4096, 8192, 65536, 1 << 20)
+
+
+def keep_builders():
+    """name -> callable(size) building a command whose data-in buffer has that many bytes"""
+    from pyscsi.pyscsi.scsi_enum_command import sbc, smc
+    R10, R16, INQ, RL, MS10, RES = (CS.get_class(n) for n in ("Read10", "Read16", "Inquiry", "ReportLuns", "ModeSense10", "ReadElementStatus"))
+    return {
+        "Read10": lambda n: R10(sbc.READ_10, 512, 0, n // 512) if n % 512 == 0 and n // 512 < 65536 else None,
+        "Read16": lambda n: R16(sbc.READ_16, 512, 0, n // 512) if n % 512 == 0 else None,
+        "Inquiry": lambda n: INQ(sbc.INQUIRY, alloclen=n) if n < 65536 else None,
+        "ReportLuns": lambda n: RL(sbc.REPORT_LUNS, alloclen=n),
+        "ModeSense10": lambda n: MS10(sbc.MODE_SENSE_10, 0x3F, alloclen=n) if n < 65536 else None,
+        "ReadElementStatus": lambda n: RES(smc.READ_ELEMENT_STATUS, 0, 1, alloclen=n),
+    }
+
+
+def run_keep_datain(first, second, size):
+    """the caller keeps the data-in buffer of a finished command (r = s.read16(...).datain, as the shipped examples do), the command
+    object itself is dropped and collected, then another command with a data-in buffer of the same size is built and filled: the
+    buffer the caller holds is its own - not the new command's, unchanged by it, and the caller's writes do not show in the new one"""
+    import gc
+    mk = keep_builders()
+    c1 = mk[first](size)
+    if c1 is None or len(c1.datain) != size:
+        return []
+    mine = c1.datain
+    pattern = bytes((i * 13 + 5) & 0xFF for i in range(min(size, 4096)))
+    mine[:len(pattern)] = pattern
+    del c1
+    gc.collect()
+    c2 = mk[second](size)
+    if c2 is None or len(c2.datain) != size:
+        return []
+    out = []
+    where = "%s with a %d byte data-in buffer kept by the caller and the command dropped, then %s of the same size" % (first, size, second)
+    if c2.datain is mine:
+        out.append(("keep_datain/same_object", "%s: the new command's data-in buffer IS the buffer the caller still holds" % where))
+    if bytes(mine[:len(pattern)]) != pattern:
+        out.append(("keep_datain/wiped", "%s: building the new command changed the caller's buffer" % where))
+    c2.datain[:8] = b"\xee" * 8
+    if bytes(mine[:len(pattern)]) != pattern:
+        out.append(("keep_datain/overwritten", "%s: filling the new command's data-in changed the caller's buffer" % where))
+    mine[8:16] = b"\xdd" * 8
+    if bytes(c2.datain[8:16]) == b"\xdd" * 8:
+        out.append(("keep_datain/writes_through", "%s: the caller writing into its own buffer changed the new command's data-in" % where))
+    return out
+
+
 def discard_cases():
     out = []
     for name in ("Write10", "Write12", "Write16", "WriteSame10", "WriteSame16"):
@@ -754,6 +803,8 @@ def run_discard(case):
 
 
 def run_case(case):
+    if case[0] == "keep_datain":
+        return run_keep_datain(*case[1:])
     if case[0] == "reentrant":
         return run_reentrant(case[1], case[2])[0]
     if case[0] == "scan":
@@ -854,6 +905,21 @@ def run_partition(part, tier, seed):
         acc.outcome(("hashseed", tuple(k for k, _ in v)))
         return acc
     if part[0] == "discard":
+        for first in keep_builders():
+            for second in keep_builders():
+                for size in KEEP_SIZES:
+                    for rounds in (1,):
+                        case = ["keep_datain", first, second, size]
+                        acc.case(case, nontrivial=True, key=repr(case))
+                        acc.transitions += 3
+                        try:
+                            v = run_keep_datain(first, second, size)
+                        except Exception:
+                            import traceback
+                            v = [("harness_error", traceback.format_exc()[-500:])]
+                        for k, w in v:
+                            acc.violation(k, w, case)
+                        acc.outcome((repr(case), tuple(k for k, _ in v)))
         for c in discard_cases():
             case = ["discard", c]
             acc.case(case, nontrivial=True, key=repr(case))
